@@ -68,6 +68,11 @@ func C18(c *Ctx) {
 		{Name: "L", Expr: gast.A(gast.Plus(ucl("Ll", "Greek")), 3, mon.Spec{R: 2})},
 		{Name: "O", Expr: gast.A(gast.Plus(gast.C(ucl("Nd", "Cyrillic"), gast.Cl(&gast.ClassSpec{UClasses: []string{"L"}, Inverted: true}))), 4, mon.Spec{R: 2})},
 	}}
+	// deep nesting: Debug(true) traces are indented by depth
+	deep := &gast.Grammar{Rules: []*gast.Rule{
+		{Name: "S", Expr: gast.A(gast.C(gast.S(gast.L("("), gast.Lab("a", gast.Ref("S")), gast.L(")")), gast.S(gast.L("["), gast.Lab("a", gast.Ref("S")), gast.L("]")), gast.L("a")), 1, mon.Spec{})},
+	}}
+	add(deep, false, nil)
 	add(words, false, nil)
 	add(words.Clone(), false, []string{"-optimize-parser"})
 	for _, p := range []*gast.Profile{sp, pp} {
@@ -135,6 +140,11 @@ func C18(c *Ctx) {
 					ins = append(ins, []byte(w), []byte(w+w))
 				}
 			}
+			if u.G == deep {
+				for _, d := range []int{9, 11, 12, 14, 17, 22, 25, 30, 36} {
+					ins = append(ins, []byte(strings.Repeat("(", d)+"a"+strings.Repeat(")", d)), []byte(strings.Repeat("[(", d/2)+"a"+strings.Repeat(")]", d/2)))
+				}
+			}
 			for ii, in := range ins {
 				if len(in) > 120 {
 					continue
@@ -144,7 +154,7 @@ func C18(c *Ctx) {
 				if !u.HasFlag("-optimize-parser") {
 					cs.Memo = o == 1
 					cs.Stats = o == 2
-					cs.DebugQuiet = ii%7 == 3 && len(in) < 40 // Debug(true): the trace goes to the (nulled) process-wide stdout
+					cs.DebugQuiet = ii%7 == 3 && len(in) < 40 || len(in) > 15 && (in[0] == '(' || in[0] == '[') && u.G == deep // Debug(true): the trace goes to the (nulled) process-wide stdout
 				}
 				cs.AllowInvalid = o == 3
 				cs.NoRecover = o == 4
@@ -154,6 +164,16 @@ func C18(c *Ctx) {
 					cs.Init = []int{0, 4, 8, 0, 5}[(ii+o)%5] // different key sets per call (InitState)
 				}
 				cases = append(cases, cs)
+				if cs.DebugQuiet {
+					c.CovAdd("debug_cases", 1)
+					if len(in) > 15 {
+						c.CovAdd("deep_debug_cases", 1)
+					}
+				}
+				if ii%4 == 1 {
+					// prefixes of one shared option table (different lengths in different goroutines)
+					cases = append(cases, &mon.Case{ID: fmt.Sprintf("%s/%d/t", u.Pkg, ii), Pkg: u.Pkg, Input: in, TableOpts: 3 + ii%5})
+				}
 			}
 		}
 		if len(cases) == 0 || len(bt.batches) == 0 || bt.batches[0] == nil {
